@@ -28,54 +28,65 @@ from ..model import own_nodes
 
 
 def locate(model):
-    """Anchors inside render_blocks_: the conditional's try, loop, the
-    namespace name, the cache variable, the current-condition variable."""
+    """Anchors inside render_blocks_: the condition loop (a while whose body
+    takes the current condition from the block tuple and re-enters
+    render_blocks_), its enclosing try, the cache push, the namespace name,
+    the cache variable, the current-condition variable."""
     fi = model.func('_DocumentTemplate', 'render_blocks_')
-    push = None
+    loop = condvar = None
     for n in own_nodes(fi.node):
-        if isinstance(n, ast.Call) and isinstance(n.func, ast.Attribute) \
-                and n.func.attr == '_push' and n.args and \
-                isinstance(n.args[0], ast.Name):
-            push = n
-    if push is None:
-        raise AnalysisError('render_blocks_: cache push not found')
-    md = norm(push.func.value)
-    cache = push.args[0].id
-    # the statement list holding the push
-    stmt = push
-    while not isinstance(getattr(stmt, '_dt_parent', None),
-                         (ast.If, ast.For, ast.While, ast.FunctionDef,
-                          ast.Try, ast.With)):
-        stmt = stmt._dt_parent
-    holder = stmt._dt_parent
-    body = None
+        if isinstance(n, ast.While):
+            cv = None
+            for s in n.body:
+                if isinstance(s, ast.Assign) and \
+                        isinstance(s.value, ast.Subscript) and \
+                        isinstance(s.targets[0], ast.Name):
+                    cv = s.targets[0].id
+                    break
+            evals = cv and any(
+                (isinstance(c, ast.Call) and isinstance(c.func, ast.Name)
+                 and c.func.id == cv) or
+                (isinstance(c, ast.Subscript) and
+                 isinstance(c.slice, ast.Name) and c.slice.id == cv)
+                for c in ast.walk(n))
+            if cv and evals:
+                loop, condvar = n, cv
+    if loop is None:
+        raise AnalysisError('render_blocks_: condition loop not found')
+    # the branch body (statement list) that holds the loop, directly or
+    # inside a try
+    tr = None
+    for a in ancestors(loop):
+        if isinstance(a, ast.Try) and tr is None:
+            tr = a
+        if isinstance(a, ast.For):
+            break
+    top = tr if tr is not None else loop
+    holder = top._dt_parent
+    block = None
     for fld in ('body', 'orelse', 'finalbody'):
         lst = getattr(holder, fld, None)
-        if isinstance(lst, list) and stmt in lst:
-            body = lst
-    if body is None:
-        raise AnalysisError('render_blocks_: push statement not in a block')
-    idx = body.index(stmt)
-    tr = next((s for s in body[idx + 1:] if isinstance(s, ast.Try)), None)
-    if tr is None:
-        raise AnalysisError('render_blocks_: try after the cache push not '
-                            'found')
-    loops = [n for n in ast.walk(tr) if isinstance(n, ast.While)]
-    if len(loops) != 1:
-        raise AnalysisError('render_blocks_: condition loop not found')
-    loop = loops[0]
-    # current-condition variable: first assignment in the loop body from a
-    # subscript
-    condvar = None
-    for s in loop.body:
-        if isinstance(s, ast.Assign) and isinstance(s.value, ast.Subscript) \
-                and isinstance(s.targets[0], ast.Name):
-            condvar = s.targets[0].id
-            break
-    if condvar is None:
-        raise AnalysisError('render_blocks_: condition variable not found')
-    return dict(fi=fi, push=push, push_stmt=stmt, block=body, tr=tr,
-                loop=loop, md=md, cache=cache, cond=condvar)
+        if isinstance(lst, list) and top in lst:
+            block = lst
+    if block is None:
+        raise AnalysisError('render_blocks_: conditional branch not found')
+    pushes = []
+    for st in block:
+        for n in ast.walk(st):
+            if isinstance(n, ast.Call) and \
+                    isinstance(n.func, ast.Attribute) and \
+                    n.func.attr == '_push' and n.args and \
+                    isinstance(n.args[0], ast.Name):
+                pushes.append((st, n))
+    if not pushes:
+        raise AnalysisError('render_blocks_: cache push not found')
+    stmt, push = pushes[0]
+    return dict(fi=fi, push=push, push_stmt=stmt, block=block,
+                tr=tr if tr is not None else ast.Try(
+                    body=[loop], handlers=[], orelse=[], finalbody=[]),
+                loop=loop, md=norm(push.func.value),
+                cache=push.args[0].id, cond=condvar, top=top,
+                has_try=tr is not None)
 
 
 class CS(BaseState):
@@ -282,8 +293,7 @@ def rule_eval(model):
     for n in ast.walk(loop):
         if dom.is_eval(n):
             r1.instance(fi.where, n, 'evaluation site')
-    if dom.body_renders < 1 or else_renders < 1:
-        raise AnalysisError('C09.R1: body/else render sites not found')
+    structure_lost = dom.body_renders < 1 or else_renders < 1
     seen = set()
     for node, msg in dom.problems:
         rr = r2 if 'cache' in msg else r1
@@ -307,8 +317,19 @@ def rule_eval(model):
                s.targets[0].id == cache and
                isinstance(s.value, ast.Dict) and not s.value.keys]
     r2.instance(fi.where, a['push_stmt'], 'push before loop')
-    if not created or block.index(created[0]) > block.index(
-            a['push_stmt']):
+    direct = isinstance(a['push_stmt'], ast.Expr) and \
+        a['push_stmt'] in block and a['top'] in block and \
+        block.index(a['push_stmt']) < block.index(a['top'])
+    if not direct:
+        r2.finding(fi.where, a['push'], 'the cache is not pushed on the '
+                   'namespace before the first condition is evaluated: '
+                   'a name cached by an earlier (false) condition is looked '
+                   'up again by later conditions', node=a['push'], ctx=fi)
+    if not a['has_try']:
+        r2.finding(fi.where, 'try/finally', 'the conditional is not wrapped '
+                   'in try/finally', node=a['loop'], ctx=fi)
+    if not created or a['push_stmt'] not in block or \
+            block.index(created[0]) > block.index(a['push_stmt']):
         r2.finding(fi.where, f'{cache} = ...', 'the cache pushed for a '
                    'conditional is not a fresh dict created for this '
                    'conditional (values could leak between conditionals / '
@@ -329,6 +350,9 @@ def rule_eval(model):
     if not pops:
         r2.finding(fi.where, 'finally', 'the cache is not popped in the '
                    'finally clause', node=a['tr'], ctx=fi)
+    if structure_lost and not (r1.findings or r2.findings):
+        raise AnalysisError('C09.R1: body/else render sites not found in '
+                            'the condition loop (mechanism restructured)')
     return [r1, r2]
 
 
@@ -465,6 +489,61 @@ def rule_shapes(model):
                                       f'as {seq!r}, expected condition/body '
                                       'pairs followed by an optional else '
                                       'body', node=v, ctx=fi)
+    # every continuation section contributes its (condition, body) pair
+    ifc = model.func('DT_If', 'If.__init__')
+    for n in own_nodes(ifc.node):
+        if isinstance(n, ast.For):
+            appends = [c for c in ast.walk(n) if isinstance(c, ast.Call)
+                       and isinstance(c.func, ast.Attribute)
+                       and c.func.attr == 'append']
+            if not appends:
+                continue
+            r.instance(ifc.where, f'for {norm(n.target)} in {norm(n.iter)}',
+                       'elif loop')
+            for x in ast.walk(n):
+                if isinstance(x, (ast.Continue, ast.Break)):
+                    r.finding(ifc.where, x, 'an elif section can be skipped '
+                              'by the compiler: its condition is then never '
+                              'tested and a later branch renders instead',
+                              node=x, ctx=ifc)
+            for c in appends:
+                guarded = False
+                for anc in ancestors(c):
+                    if anc is n:
+                        break
+                    if isinstance(anc, ast.If):
+                        guarded = True
+                if guarded:
+                    r.finding(ifc.where, c, 'a condition/body pair is '
+                              'appended only conditionally', node=c,
+                              ctx=ifc)
+    # the "..." shorthand always compiles to an expression
+    npf = model.func('DT_Util', 'name_param')
+    for n in own_nodes(npf.node):
+        if isinstance(n, ast.If) and "'\"'" in norm(n.test):
+            evals = set()
+            for x in ast.walk(ast.Module(body=n.body, type_ignores=[])):
+                if isinstance(x, ast.Assign) and \
+                        isinstance(x.value, ast.Call) and any(
+                            c.endswith(':Eval')
+                            for c in model.callee_names(x.value, npf)) and \
+                        isinstance(x.targets[0], ast.Name):
+                    evals.add(x.targets[0].id)
+            for x in ast.walk(ast.Module(body=n.body, type_ignores=[])):
+                if isinstance(x, ast.Return) and \
+                        isinstance(x.value, ast.Tuple) and \
+                        len(x.value.elts) == 2:
+                    second = x.value.elts[1]
+                    ok = isinstance(second, ast.Name) and second.id in evals
+                    r.instance(npf.where, x, 'shorthand -> expression'
+                               if ok else 'shorthand -> NAME')
+                    if not ok:
+                        r.finding(npf.where, x, 'the quoted expression '
+                                  'shorthand can compile to a plain name '
+                                  'lookup: a callable is then called '
+                                  'instead of being passed to the '
+                                  'expression uncalled', node=x, ctx=npf)
+            break
     # opcodes tested by the interpreter
     fi = model.func('_DocumentTemplate', 'render_blocks_')
     tested = set()
